@@ -19,7 +19,7 @@ READ_NOTES = S.SMMAP + "._read_notes"
 def reader_dispatch(ctx):
     """symbol constant name -> ('append', accumulator) | ('tail', [accumulators tried in order])"""
     M = ctx.M
-    fn = M.fn(READ_NOTES)
+    fn = M.nfn(READ_NOTES)
     var = None
     # the character variable: compared against SMConst.* in an if/elif chain
     branches = []
@@ -80,7 +80,7 @@ def slot_assignments(ctx):
     """slot -> (list class, expander name, accumulator name, node) from
     ``self.<slot> = <List>.from_dict(<expander>(<acc>))``."""
     M = ctx.M
-    fn = M.fn(READ_NOTES)
+    fn = M.nfn(READ_NOTES)
     out = {}
     for n in walk_no_nested(fn.node):
         if isinstance(n, ast.Assign) and C.self_attr(n.targets[0]) and isinstance(n.value, ast.Call) and \
@@ -222,7 +222,7 @@ def _reseat_arg(call: ast.Call):
 
 def rule_r4(ctx) -> List[R.Inst]:
     M = ctx.M
-    fn = M.fn(READ_NOTES)
+    fn = M.nfn(READ_NOTES)
     file = M.mods[fn.mod].rel
     insts = []
     tms = {}
@@ -365,7 +365,7 @@ def rule_r7(ctx) -> List[R.Inst]:
     from ..flow import Flow, SeqV, ExprV, show, ctor_kwargs
     M = ctx.M
     rid = "C02.R7"
-    fn = M.fn(READ_NOTES)
+    fn = M.nfn(READ_NOTES)
     file = M.mods[fn.mod].rel
     insts = []
     nested = [n for n in fn.node.body if isinstance(n, ast.FunctionDef)]
@@ -439,7 +439,7 @@ def rule_r9(ctx) -> List[R.Inst]:
     from .. import sym
     M = ctx.M
     rid = "C02.R9"
-    fn = M.fn(READ_NOTES)
+    fn = M.nfn(READ_NOTES)
     file = M.mods[fn.mod].rel
     insts = []
     loops = [n for n in ast.walk(fn.node) if isinstance(n, ast.For)]
@@ -559,7 +559,7 @@ def rule_r10(ctx) -> List[R.Inst]:
     silent None) is built from every per-kind buffer that is later expanded"""
     M = ctx.M
     rid = "C02.R10"
-    fn = M.fn(READ_NOTES)
+    fn = M.nfn(READ_NOTES)
     file = M.mods[fn.mod].rel
     # the lookup table: NAME = {k: v for k, v in zip(KEYS, tm.offsets(KEYS))}
     table = keys = None
@@ -674,7 +674,7 @@ def rule_r11(ctx) -> List[R.Inst]:
                                 "truncated, shifted by a measure or unreadable; an inline comment after a row discards the row",
                                 construct="split(';') before comment removal"))
     # (b) rows: stripped, blank ones dropped
-    rn = M.fn(READ_NOTES)
+    rn = M.nfn(READ_NOTES)
     file2 = M.mods[rn.mod].rel
     comps = [n for n in ast.walk(rn.node) if isinstance(n, ast.ListComp) and any(
         isinstance(g.iter, ast.Call) and isinstance(g.iter.func, ast.Attribute) and g.iter.func.attr == "split" and g.iter.args and
